@@ -68,8 +68,28 @@ class Renamer(ast.NodeTransformer):
                     and n not in nested_names and not n.startswith('_') and n != 'self' \
                     and not hasattr(builtins, n) and not s.is_imported():
                 mapping[n] = n + '_r'
-        # comprehension targets live in their own scopes: leave them alone
+        # names bound inside comprehension / lambda scopes keep their names;
+        # a local that shares its name with one of them is left alone too
+        inner_bound = set()
+        for sub in ast.walk(node):
+            if isinstance(sub, ast.comprehension):
+                inner_bound |= {n.id for n in ast.walk(sub.target) if isinstance(n, ast.Name)}
+            elif isinstance(sub, ast.Lambda):
+                inner_bound |= {a.arg for a in sub.args.args + sub.args.kwonlyargs}
+                if sub.args.vararg:
+                    inner_bound.add(sub.args.vararg.arg)
+        for n in inner_bound:
+            mapping.pop(n, None)
+        # symtable marks a local read by a comprehension as a cell variable,
+        # still is_local(): they were excluded above through nested_names
+        for n in list(nested_names):
+            if n not in inner_bound and not n.startswith('_') and not hasattr(builtins, n):
+                sym = [x for x in ch.get_symbols() if x.get_name() == n]
+                if sym and sym[0].is_local() and not sym[0].is_parameter() and not sym[0].is_imported():
+                    mapping[n] = n + '_r'
         outer = self
+        real_nested = any(isinstance(x, (ast.FunctionDef, ast.AsyncFunctionDef, ast.ClassDef))
+                          for x in ast.walk(node) if x is not node)
 
         class Local(ast.NodeTransformer):
             def visit_Name(self, n):
@@ -77,27 +97,12 @@ class Renamer(ast.NodeTransformer):
                     n.id = mapping[n.id]
                 return n
 
-            def visit_FunctionDef(self, n):
-                return outer.visit_FunctionDef(n) if n is not node else self.generic_visit(n)
-
             def visit_ExceptHandler(self, n):
                 if n.name in mapping:
                     n.name = mapping[n.name]
                 return self.generic_visit(n)
-
-            def visit_Lambda(self, n):
-                return n
-
-            def visit_ListComp(self, n):
-                return n
-            visit_SetComp = visit_DictComp = visit_GeneratorExp = visit_ListComp
-
-            def visit_ClassDef(self, n):
-                return n
-        if has_nested or any(isinstance(x, (ast.Lambda, ast.ListComp, ast.SetComp, ast.DictComp,
-                                             ast.GeneratorExp)) for x in ast.walk(node)):
-            # keep functions with closures/comprehensions untouched (their
-            # inner scopes may read the locals)
+        if real_nested:
+            # closures over locals: leave the function untouched
             self.stack.pop()
             return node
         Local().generic_visit(node)
